@@ -149,6 +149,7 @@ package ledger
 //@   property C13
 //@   ensures err != nil ==> log == nil && output == nil
 //@   ensures output != nil ==> log != nil && err == nil && log.IdempotencyKey == parameters.IdempotencyKey
+//@   ensures output != nil ==> (log.IdempotencyHash == "" || log.IdempotencyHash == idemHash(boxany(parameters.Input)))
 
 //@ func (lp *logProcessor[INPUT, OUTPUT]) runLog(ctx context.Context, store Store, parameters Parameters[INPUT], fn func(ctx context.Context, sqlTX Store, schema *ledger.Schema, parameters Parameters[INPUT]) (*OUTPUT, error)) (log *ledger.Log, output *OUTPUT, err error)
 //@   property C07 C08 C13 C29 C31
@@ -210,6 +211,7 @@ package ledger
 //@   ensures err == nil && !parameters.DryRun && !hit ==> nCommit == old(nCommit) + 1 && committedLogs == old(committedLogs) + 1 && committedFnRuns == old(committedFnRuns) + 1
 //@   ensures err == nil ==> log != nil && output != nil
 //@   ensures err != nil ==> !hit
+//@   ensures hit ==> log != nil && log.IdempotencyKey == parameters.IdempotencyKey && (log.IdempotencyHash == "" || log.IdempotencyHash == idemHash(boxany(parameters.Input)))
 //@   assume-unreachable "incoherent error" database fact: an InsertLog that fails with an idempotency-key conflict means a committed log with that key exists (unique index), so ReadLogWithIdempotencyKey finds it
 //@   loop 1:
 //@     invariant nBegin - old(nBegin) == nClosed - old(nClosed)
@@ -236,6 +238,7 @@ package ledger
 //@   ensures err == nil && !parameters.DryRun && !hit ==> nCommit == old(nCommit) + 1 && committedLogs == old(committedLogs) + 1 && committedFnRuns == old(committedFnRuns) + 1
 //@   ensures err == nil ==> log != nil && output != nil
 //@   ensures err != nil ==> !hit
+//@   ensures hit ==> log != nil && log.IdempotencyKey == parameters.IdempotencyKey && (log.IdempotencyHash == "" || log.IdempotencyHash == idemHash(boxany(parameters.Input)))
 //@   fnparam fn(c, sqlTX, schema, params) (out, ferr):
 //@     modifies writes, fnRuns
 //@     ensures fnRuns == store(old(fnRuns), sqlTX, old(fnRuns)[sqlTX] + 1)
